@@ -12,6 +12,7 @@
                kp             the keypoints / centroids the targets are drawn from: <<round(x*64), round(y*64), v>>
                               (v = 0: NaN, 2: not representable), flattened in tensor order;  krank: tensor rank
                tsh            shapes of the target tensors
+     ninst   the num_instances field of the three samples (metadata: recorded as a note, not judged)
      eq      pairwise allclose FLAGS computed by the harness (never hashes of rounded floats), pairs in the order
              <<InMemory~NpChunks, InMemory~ChunkStream, NpChunks~ChunkStream>>:
                img   |a - b| <= 1/255 + 1e-6 everywhere (the 8-bit quantisation the property allows)
@@ -20,8 +21,8 @@
    TLC runs the three spec behaviours of exactly this configuration (the actions of Frameworks.tla / Geometry.tla),
    which yields the INSTANCE of the theorem for this configuration - Demanded(cfg) and the three specified final samples -
    and then judges the observation:
-     * Demanded(cfg):  the three observed samples must agree - sample counts, image shape, keypoints (2 quanta of
-       1/64 px), image flags, target shapes and flags; nothing may raise in one framework only.  First failing clause,
+     * Demanded(cfg):  the three observed samples must agree - sample counts, image shape, number of keypoints,
+       keypoints (2 quanta of 1/64 px), image flags, target shapes and flags; nothing may raise in one framework only.  First failing clause,
        by name, else accepted.  The spec's own three samples must agree too (else the spec is wrong: reported as
        spec_theorem_fails_on_instance, which the driver treats as a machinery failure, not as a finding).
      * ~Demanded(cfg) (centered-instance at scale # 1: the property is silent): accepted; what differs is recorded as a
@@ -64,16 +65,18 @@ PairChecks(p) ==
     LET a == O(Pairs[p][1])
         b == O(Pairs[p][2])
     IN << <<"image_shape_differs_", a.ih = b.ih /\ a.iw = b.iw /\ a.ic = b.ic>>,
-          <<"keypoints_differ_", KpSame(a.kp, b.kp)>>,
+          <<"keypoint_count_differs_", Len(a.kp) = Len(b.kp)>>,
+          <<"keypoints_differ_", Len(a.kp) # Len(b.kp) \/ KpSame(a.kp, b.kp)>>,
           <<"images_differ_", T.eq.img[p] = 1>>,
           <<"target_shapes_differ_", a.tsh = b.tsh>>,
           <<"targets_differ_", \A j \in 1..Len(T.eq.tgt) : T.eq.tgt[j][p] = 1>> >>
 \* field-major order: the most basic difference is named first
-Checks == [k \in 1..15 |-> LET p == ((k - 1) % 3) + 1
+NChecks == 18
+Checks == [k \in 1..NChecks |-> LET p == ((k - 1) % 3) + 1
                                f == ((k - 1) \div 3) + 1
                            IN <<PairChecks(p)[f][1] \o PairName(p), PairChecks(p)[f][2]>>]
-SampleClause == IF \A k \in 1..15 : Checks[k][2] THEN "ok"
-                ELSE Checks[CHOOSE k \in 1..15 : ~Checks[k][2] /\ \A j \in 1..(k - 1) : Checks[j][2]][1]
+SampleClause == IF \A k \in 1..NChecks : Checks[k][2] THEN "ok"
+                ELSE Checks[CHOOSE k \in 1..NChecks : ~Checks[k][2] /\ \A j \in 1..(k - 1) : Checks[j][2]][1]
 Raisers == {f \in 1..3 : T.raised[f] # ""}
 ConfigClause == IF Raisers = {1, 2, 3} THEN "ok"          \* all three refuse the input: they agree
                 ELSE IF Raisers # {} THEN "raised_only_in_" \o FwNames[CHOOSE f \in Raisers : \A g \in Raisers : f <= g]
@@ -101,13 +104,14 @@ ConformNote == IF \E f \in 1..3 : ~ConformSize(f) THEN "spec_conformance_differs
                ELSE IF \A f \in 1..3 : OnlyMissingAnchor(f) THEN "spec_conformance_differs_only_at_missing_anchor_node"
                ELSE "spec_conformance_differs_keypoints"
 RankNote == IF O(1).krank = O(3).krank THEN "keypoint_rank_same" ELSE "keypoint_rank_differs_InMemory_ChunkStream"
+NinstNote == IF T.ninst[1] = T.ninst[2] /\ T.ninst[1] = T.ninst[3] THEN "num_instances_same" ELSE "num_instances_field_differs"
 SpecWhy == IF ~SameSample(fin[1], fin[2]) THEN WhyDiffer(fin[1], fin[2]) ELSE WhyDiffer(fin[1], fin[3])
 
 Judge ==
     LET id == T.id
         c == Clause
     IN IF Demanded(cfg) /\ ~AllSame THEN TReject(id, "spec_theorem_fails_on_instance_" \o SpecWhy)
-       ELSE /\ IF T.kind = "sample" THEN Note(ConformNote) /\ Note(RankNote) ELSE TRUE
+       ELSE /\ IF T.kind = "sample" THEN Note(ConformNote) /\ Note(RankNote) /\ Note(NinstNote) ELSE TRUE
             /\ IF ~Demanded(cfg) THEN Note("spec_diverges_in_" \o SpecWhy) ELSE TRUE
             /\ IF c = "ok" THEN VAccept /\ Note(IF Demanded(cfg) THEN "agree_" \o T.kind ELSE "silent_agree_" \o T.kind)
                ELSE IF Demanded(cfg) THEN TReject(id, c)
